@@ -129,6 +129,7 @@ def showDecision : Decision → String
 def showEv : Ev → Option String
   | .lb n d => some s!"lb {n} {showDecision d}"
   | .sv n t inc => some s!"sv {n} {t} inc={showCsv inc}"
+  | .svSkipped n => some s!"sv {n} notwritten"
   | .loadfail _ => none
 
 def splitBlocks (trace : List String) : List (List String) :=
@@ -226,7 +227,10 @@ def sysLine (m : MState) (line : String) : MState :=
     | some _, some t =>
       { m with sys := { m.sys with w := { m.sys.w with files := (q, t) :: m.sys.w.files.filter (·.1 != q) } } }
     | _, _ => m.emit s!"mtime-error {p}"
-  | ["now", t] => { m with sys := { m.sys with vnow := t.toNat?.getD m.sys.vnow } }
+  | ["now", t] =>
+    -- the clock of the files the driver writes, and `current_time` (which never moves backwards)
+    let v := t.toNat?.getD m.sys.vnow
+    { m with sys := { m.sys with vnow := v, ctime := max m.sys.ctime v } }
   | "prog" :: name :: rest =>
     let d : ProgDecl := { name := name, save := kv rest "save" == "1", includes := csv (kv rest "inc"),
                           inherits := csv (kv rest "inh") }
@@ -275,7 +279,7 @@ def sysLine (m : MState) (line : String) : MState :=
     let m := m.emit s!"begin {rno}"
     let w := m.sys.w
     let sys0 := { m.sys with w := { w with loaded := w.loaded.filter (fun o => !(fam.contains o)) }, evs := [] }
-    let (sys1, ok) := loadObject sys0 (top ++ ".c") 64
+    let (sys1, ok) := loadObject sys0 (top ++ ".c") true 64
     let evs := sys1.evs.reverse
     let m := (evs.filterMap showEv).foldl MState.emit m
     let m := { m with reasons := m.reasons ++ evs.filterMap (fun e => match e with
@@ -283,6 +287,7 @@ def sysLine (m : MState) (line : String) : MState :=
       | .lb _ (.needs _) => some "needs-inherit"
       | .lb _ (.stale why) => some s!"stale:{why}"
       | .sv _ _ _ => some "save"
+      | .svSkipped _ => some "save-skipped:outdated-parent"
       | _ => none) }
     let m := if ok then m else m.emit s!"loadfail {top}"
     let usedBin (tag : String) : Bool := evs.any (fun e => e == Ev.lb (tag ++ ".c") .use)
